@@ -79,6 +79,9 @@ pub trait LogView: Send + Sync {
 
 #[derive(Clone)]
 pub struct Endpoint {
+    /// the node's data directory and where a crash image of this incarnation goes
+    pub dir: std::path::PathBuf,
+    pub image_dir: std::path::PathBuf,
     pub inc: u32,
     pub event_tx: mpsc::Sender<InboundEvent>,
     pub cfg: Arc<RaftNodeConfig>,
@@ -123,6 +126,13 @@ pub struct NetInner {
     pub next_id: u64,
     /// bumped whenever a link set changes so that live streams notice
     pub epoch: u64,
+    /// vote-window crashes: percentage of granted votes after which the voter "dies" the very
+    /// moment its reply has left (disk image taken right then, node cut off from everybody)
+    pub vote_crash_pct: u64,
+    /// nodes whose crash image has been taken and that are dead to the outside world; the
+    /// scenario loop completes the crash (abort tasks, re-point directories) at its next step
+    pub dead: HashSet<u32>,
+    pub staged: Vec<u32>,
 }
 
 #[derive(Clone)]
@@ -141,6 +151,9 @@ impl Net {
                 rng: Rng::new(seed),
                 next_id: 1,
                 epoch: 0,
+                vote_crash_pct: 0,
+                dead: HashSet::new(),
+                staged: Vec::new(),
             })),
             rec,
             t0,
@@ -169,7 +182,45 @@ impl Net {
         g.epoch += 1;
     }
     pub fn blocked(&self, from: u32, to: u32) -> bool {
-        self.inner.lock().unwrap().faults.blocked.contains(&(from, to))
+        let g = self.inner.lock().unwrap();
+        g.faults.blocked.contains(&(from, to)) || g.dead.contains(&from) || g.dead.contains(&to)
+    }
+
+    /// Crash `voter` at this very instant as far as anybody can tell: copy its data directory
+    /// now (everything written so far, nothing later), cut it off. Returns false if not done.
+    fn stage_crash(&self, voter: u32) -> bool {
+        let ep = {
+            let g = self.inner.lock().unwrap();
+            if !g.dead.is_empty() || !g.staged.is_empty() {
+                return false; // one at a time: never take down more than a minority
+            }
+            match g.endpoints.get(&voter) {
+                Some(e) => e.clone(),
+                None => return false,
+            }
+        };
+        if super::cluster::copy_dir(&ep.dir, &ep.image_dir).is_err() {
+            return false;
+        }
+        {
+            let mut g = self.inner.lock().unwrap();
+            g.dead.insert(voter);
+            g.staged.push(voter);
+            g.epoch += 1;
+        }
+        // from this instant the node is crashed for every observer, monitors included: whatever
+        // the still-scheduled tasks of the old incarnation do until the scenario loop aborts
+        // them is invisible to the rest of the cluster and discarded at restart
+        self.log(Ev::Crash { node: voter, inc: ep.inc });
+        true
+    }
+
+    pub fn take_staged(&self) -> Vec<u32> {
+        std::mem::take(&mut self.inner.lock().unwrap().staged)
+    }
+
+    pub fn clear_dead(&self, id: u32) {
+        self.inner.lock().unwrap().dead.remove(&id);
     }
     fn refuse(&self) -> bool {
         self.inner.lock().unwrap().faults.refuse
@@ -264,6 +315,22 @@ impl Net {
             granted: resp.vote_granted,
             reply_term: resp.term,
         });
+        // vote-window crash: the grant has left the voter; kill the voter right now
+        let mut crash_after_reply = false;
+        if resp.vote_granted {
+            let pct = self.inner.lock().unwrap().vote_crash_pct;
+            if self.roll(pct) {
+                crash_after_reply = true;
+            }
+        }
+        if crash_after_reply {
+            // the reply is on the wire already: deliver it, then the voter is gone
+            tokio::time::sleep(self.delay(to, from)).await;
+            if self.stage_crash(to) {
+                self.log(Ev::Fault { desc: format!("vote-window crash of {to}: image taken right after its grant to {from} for term {} left", req.term) });
+            }
+            return Ok(tonic::Response::new(resp));
+        }
         self.reply_leg(to, from).await;
         Ok(tonic::Response::new(resp))
     }
